@@ -147,6 +147,11 @@ func (b *prefixBatch) Put(key, value []byte) error {
 	return nil
 }
 
+func (b *prefixBatch) Delete(key []byte) error {
+	b.b.Delete(generateKey(key, b.prefix))
+	return nil
+}
+
 func (b *prefixBatch) Write() error {
 	verifOnWrite("batch", []byte(b.prefix), b.size)
 	return b.db.Write(b.b, nil)
@@ -243,7 +248,10 @@ func (db *MemDatabase) NewBatch() Batch {
 
 func (db *MemDatabase) Len() int { return len(db.db) }
 
-type kv struct{ k, v []byte }
+type kv struct {
+	k, v []byte
+	del  bool
+}
 
 type memBatch struct {
 	db     *MemDatabase
@@ -252,8 +260,13 @@ type memBatch struct {
 }
 
 func (b *memBatch) Put(key, value []byte) error {
-	b.writes = append(b.writes, kv{common.CopyBytes(key), common.CopyBytes(value)})
+	b.writes = append(b.writes, kv{k: common.CopyBytes(key), v: common.CopyBytes(value)})
 	b.size += len(value)
+	return nil
+}
+
+func (b *memBatch) Delete(key []byte) error {
+	b.writes = append(b.writes, kv{k: common.CopyBytes(key), del: true})
 	return nil
 }
 
@@ -262,6 +275,10 @@ func (b *memBatch) Write() error {
 	defer b.db.lock.Unlock()
 
 	for _, kv := range b.writes {
+		if kv.del {
+			delete(b.db.db, string(kv.k))
+			continue
+		}
 		b.db.db[string(kv.k)] = kv.v
 	}
 	return nil
@@ -342,8 +359,13 @@ type LruMemBatch struct {
 }
 
 func (b *LruMemBatch) Put(key, value []byte) error {
-	b.writes = append(b.writes, kv{common.CopyBytes(key), common.CopyBytes(value)})
+	b.writes = append(b.writes, kv{k: common.CopyBytes(key), v: common.CopyBytes(value)})
 	b.size += len(value)
+	return nil
+}
+
+func (b *LruMemBatch) Delete(key []byte) error {
+	b.writes = append(b.writes, kv{k: common.CopyBytes(key), del: true})
 	return nil
 }
 
@@ -352,6 +374,10 @@ func (b *LruMemBatch) Write() error {
 	defer b.db.lock.Unlock()
 
 	for _, kv := range b.writes {
+		if kv.del {
+			b.db.db.Remove(string(kv.k))
+			continue
+		}
 		b.db.db.Add(string(kv.k), kv.v)
 	}
 	return nil
